@@ -936,6 +936,10 @@ class Interp:
                 return self.ctx.dep_call(self, f, "__call__", list(args), kw)
             return self.call(BoundMethod(m, f), args, kw)
         # ---- real Python callables
+        if isinstance(f, (types.FunctionType, type)):
+            w = self.repo.wrap_real(f)       # a /repo function reached through a data structure (e.g. a dispatch dict)
+            if w is not f:
+                return self._call(w, args, kw, node, frame)
         model = self.ctx.external(f)
         if model is not None:
             return model(self, *args, **kw)
